@@ -34,6 +34,8 @@ NAMED = ["C:\\temp\\new.csv", "/usr/share/data.csv", "He said \"hi\"", "it's", "
          # invisible / formatting characters that text tools like to strip: byte-order mark (inside a value), zero-width and no-break spaces, soft hyphen
          # a backslash in front of the letters that start an escape sequence (\U \u \x \N ...): Windows paths, share names, column names
          "C:\\Users\\alice\\data.csv", "\\\\server\\gis\\Nevada\\unit7\\xsections", "raw\\units", "\\N", "\\x4", "\\u12", "a\\", "\\0", "\\a\\b\\f\\v\\r",
+         # text that is not in Unicode normal form C (decomposed accents, compatibility characters): a value is its code points
+         "A\u0301rea", "e\u0301te\u0301", "\u212b", "\ufb01le", "\u1e9b\u0323",
          "\ufeffelev", "a\ufeffb", "end\ufeff", "\u200bzw", "nb\u00a0sp", "soft\u00adhyphen", "\u2060wj", "\ufffd"]
 INTS = [0, 1, -1, 7, -12, 10 ** 6, 2 ** 53, -(2 ** 63), 10 ** 22]
 FLOATS = [0.5, -0.0, 0.0, 1e-05, 1.5e-07, 1e22, 1e300, 123456789.125, -2.5, 1e16, 1.0, 5e-324, float("inf"), float("-inf"), float("nan"), 0.1, 1 / 3.0]
@@ -69,6 +71,7 @@ def cases(tier):
         yield ("bools", mode, tier)
         yield ("lists", mode, tier)
         yield ("refs", mode, tier)
+        yield ("paths", mode, tier)
     for mode in ("api", "src"):
         for first in range(len(PAIR_ATOMS)):
             yield ("pairs", mode, first)
@@ -369,6 +372,18 @@ def run(case):
                     for c in PAIR_ATOMS[::4]:
                         if len({a[0], b[0], c[0]}) == 3:
                             yield "pair:triple", [("r", {a[0]: a[1], b[0]: b[1], c[0]: c[1]})]
+            n, sample = _run_specs(specs(), mode, work, viols, outcomes)
+        elif case[0] == "paths":
+            mode = case[1]
+
+            def specs():
+                # paths in, beside and outside the working directory (a sibling folder whose NAME begins with the working directory's name
+                # included), relative ones, and ones that need normalising: the cleaned value (and the file it names) survives the round trip
+                wd = work
+                for v in (wd + "/in.csv", wd + "_inputs/cells.csv", wd + "x.csv", wd, wd + "/", wd + "/sub/deep/a.csv", "rel/a.csv", "../up.csv", "./a.csv",
+                          "a//b.csv", "sub/../a.csv", "/abs/elsewhere/a.csv", os.path.dirname(wd) + "/other.csv", "C:\\data\\a.csv"):
+                    yield "path", [("r", {"P": v})]
+                    yield "path:with-string", [("r", {"P": v, "S": v})]
             n, sample = _run_specs(specs(), mode, work, viols, outcomes)
         elif case[0] == "refs":
             mode = case[1]
